@@ -180,7 +180,7 @@ def _plugin_child(world, spec, out_path, trace_path):
             if outcome.excinfo is not None:
                 import traceback
 
-                res["finish_exc"] = "".join(traceback.format_exception(*outcome.excinfo))[-3000:]
+                res["finish_exc"] = "".join(traceback.format_exception(*outcome.excinfo))[-40000:]
 
     argv = ["-p", "inline_snapshot.pytest_plugin", "-p", "no:cacheprovider", "-p", "no:xdist"]
     if spec.get("xdist") is not None:
@@ -206,7 +206,7 @@ def _plugin_child(world, spec, out_path, trace_path):
     except BaseException as e:  # an exception leaving pytest.main (e.g. from session-finish)
         import traceback
 
-        res["main_exc"] = "".join(traceback.format_exception(type(e), e, e.__traceback__))[-3000:]
+        res["main_exc"] = "".join(traceback.format_exception(type(e), e, e.__traceback__))[-40000:]
     sys.stdout.flush()
     sys.stderr.flush()
     res["rc"] = rc
@@ -327,7 +327,7 @@ def _inline_child(files, spec, scratch, out_path, trace_path):
         import traceback
 
         res["exc"] = type(e).__name__
-        res["exc_tb"] = "".join(traceback.format_exception(type(e), e, e.__traceback__))[-3000:]
+        res["exc_tb"] = "".join(traceback.format_exception(type(e), e, e.__traceback__))[-40000:]
         # the durable state is what is in the directory
         d = os.path.join(tmproot, "d1")
         if os.path.isdir(d):
@@ -600,7 +600,7 @@ def _runpytest_child(files, spec, scratch, out_path):
         import traceback
 
         res["exc"] = type(e).__name__
-        res["exc_tb"] = "".join(traceback.format_exception(type(e), e, e.__traceback__))[-2000:]
+        res["exc_tb"] = "".join(traceback.format_exception(type(e), e, e.__traceback__))[-40000:]
         res["files"] = None
     res["changed"] = changed.value if changed.seen else None
     res["report"] = report.value if report.seen else None
